@@ -141,6 +141,14 @@ def discharge(ctx, timeout_ms, cvc5_timeout_s):
                 else:
                     v, m, backend, dt = solve.check(pc + [z3.Not(goal)], timeout_ms,
                                                     cvc5_timeout_s=cvc5_timeout_s, extract=extract)
+                if v == 'unknown':
+                    # cone of influence: hypotheses sharing no symbol (transitively) with the goal are dropped.
+                    # Only a proof is accepted from the smaller query (fewer hypotheses prove no more).
+                    pc2 = select_constraints(pc_all, defs, [goal], slice_pc=True)
+                    if len(pc2) < len(pc):
+                        v2, m2, b2, dt2 = solve.check(pc2 + [z3.Not(goal)], timeout_ms, cvc5_timeout_s=cvc5_timeout_s, extract=extract)
+                        if v2 == 'unsat':
+                            v, m, backend = v2, None, b2 + '+coi'
                 if v == 'sat' and ctx.lazy:
                     v2, m2, b2, dt2 = solve.check(pc + list(ctx.lazy) + [z3.Not(goal)], timeout_ms,
                                                   cvc5_timeout_s=cvc5_timeout_s, extract=extract)
